@@ -25,6 +25,19 @@ func H_clean() {
 	vxrt.Flag("test.count", itoa(count))
 	vxrt.Flag("test.run", "")
 	sortOpt := vxrt.Bool("sort")
+	// optional features of the directory: every subset of them (param allsubsets=1), or at most
+	// one per path (the quick tier); the core - sort x stale entries x layout - is always a full product
+	allSubsets := vxrt.Param("allsubsets", 0) == 1
+	extra := 0
+	if !allSubsets {
+		extra = vxrt.Choice("extra-feature", 7)
+	}
+	feature := func(label string, idx int) bool {
+		if allSubsets {
+			return vxrt.Bool(label)
+		}
+		return extra == idx
+	}
 	n := vxrt.Param("n", 1)
 
 	// bodies of the live entries
@@ -69,7 +82,7 @@ func H_clean() {
 	// a second addressed multi-entry file: TestA makes one call there; it may hold an
 	// entry with an id that is live in f.snap but stale here
 	gpath := dir + "/g.snap"
-	gStale := vxrt.Bool("second-file-stale-entry")
+	gStale := feature("second-file-stale-entry", 1)
 	gcontent := frame("TestA - 1", "g1")
 	if gStale {
 		gcontent += frame("TestA - 2", "gstale")
@@ -77,28 +90,33 @@ func H_clean() {
 	writeFile(gpath, gcontent)
 	// an addressed file that sorts before f.snap and whose last (stale) entry lost its terminator
 	epath := dir + "/e.snap"
-	malformed := vxrt.Bool("earlier-file-with-unterminated-entry")
+	malformed := feature("earlier-file-with-unterminated-entry", 2)
 	econtent := frame("TestA - 1", "e1")
 	if malformed {
 		econtent += "\n[TestGone - 1]\nhalf written entry"
 	}
 	writeFile(epath, econtent)
 	// a stale standalone snapshot with a custom extension
-	hasStaleExt := vxrt.Bool("stale-standalone-with-ext")
+	hasStaleExt := feature("stale-standalone-with-ext", 3)
 	if hasStaleExt {
 		writeFile(dir+"/TestOld_1.snap.json", "{}")
 	}
-	hasStaleStandalone := vxrt.Bool("stale-standalone")
+	hasStaleStandalone := feature("stale-standalone", 4)
 	if hasStaleStandalone {
 		writeFile(dir+"/TestS_2.snap", "old")
 	}
-	hasStaleFile := vxrt.Bool("stale-file")
+	hasStaleFile := feature("stale-file", 5)
 	if hasStaleFile {
 		writeFile(dir+"/old.snap", frame("TestGone - 1", "x"))
 	}
-	writeFile(dir+"/TestS_1.snap", "sv")
+	// the standalone test: a plain name, or a sub-test whose name contains '%'
+	nameS, fileS := "TestS", "TestS_1.snap"
+	if feature("standalone-name-with-percent", 6) {
+		nameS, fileS = "TestS/50%", "TestS_50%_1.snap"
+	}
+	writeFile(dir+"/"+fileS, "sv")
 	writeFile(dir+"/notes.txt", "keep")
-	writeFile(dir+"/sub/inner.snap", "keep-inner")
+	writeFile(dir+"/sub.snaps/inner.snap", "keep-inner")
 	writeFile(vxrt.Dir()+"2/other.snap", "keep-other")
 
 	c := WithConfig(Dir(dir), Filename("f"), Update(false))
@@ -106,7 +124,7 @@ func H_clean() {
 	cg := WithConfig(Dir(dir), Filename("g"), Update(false))
 	ce := WithConfig(Dir(dir), Filename("e"), Update(false))
 	for r := 0; r < count; r++ {
-		ta, tb, ts := newT("TestA"), newT(nameB), newT("TestS")
+		ta, tb, ts := newT("TestA"), newT(nameB), newT(nameS)
 		c.MatchSnapshot(ta, bA1)
 		c.MatchSnapshot(ta, bA2)
 		c.MatchSnapshot(tb, bB1)
@@ -137,7 +155,7 @@ func H_clean() {
 			vxrt.Assert(err == nil, "C07:addressed-entry-still-present")
 			vxrt.Assert(vxrt.Eq(got, e.body), "C07:addressed-entry-value-unchanged")
 		}
-		vxrt.Assert(readFile(dir+"/TestS_1.snap") == "sv", "C07:addressed-standalone-untouched")
+		vxrt.Assert(readFile(dir+"/"+fileS) == "sv", "C07:addressed-standalone-untouched")
 		gg, _, gerr := getPrevSnapshot("[TestA - 1]", gpath)
 		vxrt.Assert(gerr == nil && gg == "g1", "C07:addressed-entry-in-second-file-unchanged")
 		ee, _, eerr := getPrevSnapshot("[TestA - 1]", epath)
@@ -150,7 +168,7 @@ func H_clean() {
 			}
 			vxrt.Assert(!strings.Contains(out, bulletSymbol+id+"\n"), "C07:addressed-entry-not-listed")
 		}
-		for _, f := range []string{"/TestS_1.snap\n", "/f.snap\n", "/g.snap\n", "/e.snap\n"} {
+		for _, f := range []string{"/" + fileS + "\n", "/f.snap\n", "/g.snap\n", "/e.snap\n"} {
 			vxrt.Assert(!strings.Contains(out, dir+f), "C07:addressed-file-not-listed")
 		}
 	case 9: // C09: every stale item reported; removed only in clean mode; nothing else touched
@@ -207,9 +225,9 @@ func H_clean() {
 		}
 		vxrt.Assert(strings.Count(out, bulletSymbol) == wantListed, "C09:exactly-the-stale-items-are-listed")
 		vxrt.Assert(readFile(dir+"/notes.txt") == "keep", "C09:non-snap-file-untouched")
-		vxrt.Assert(readFile(dir+"/sub/inner.snap") == "keep-inner", "C09:sub-directory-untouched")
+		vxrt.Assert(readFile(dir+"/sub.snaps/inner.snap") == "keep-inner", "C09:sub-directory-untouched")
 		vxrt.Assert(readFile(vxrt.Dir()+"2/other.snap") == "keep-other", "C09:unvisited-directory-untouched")
-		vxrt.Assert(!strings.Contains(out, "notes.txt") && !strings.Contains(out, "inner.snap") && !strings.Contains(out, "other.snap"), "C09:untouched-items-not-listed")
+		vxrt.Assert(!strings.Contains(out, "notes.txt") && !strings.Contains(out, "sub.snaps") && !strings.Contains(out, "other.snap"), "C09:untouched-items-not-listed")
 	case 5: // C05: Clean deletes only off CI with UPDATE_SNAPS true|clean, sorts only when asked
 		if !cleanMode {
 			for _, f := range append(append([]string{}, frames...), staleFrames...) {
